@@ -484,14 +484,14 @@ def _load_kernel_module(fname):
 
 
 def test_texts() -> dict:
-    """per side: the test expressions of the dispatch chains (K5D) and of the other registered handlers (K5R)"""
+    """per side: the test expressions of the dispatch chains (K5D) and of the other registered handlers (K110a)"""
     if "texts" not in _DISP:
         import mashumaro.core.meta.types.pack as pack
         import mashumaro.core.meta.types.unpack as unpack
         texts = _load_kernel_module("k5d_dispatch.py").test_texts()
         try:
-            extra = _load_kernel_module("k5r_registry.py").test_texts()
-        except Exception:  # noqa: BLE001  (K5R failed closed: the registry-walk comparison is not run then)
+            extra = _load_kernel_module("k110a_registry.py").test_texts()
+        except Exception:  # noqa: BLE001  (K110a failed closed: the registry-walk comparison is not run then)
             extra = {"pack": [], "unpack": []}
         _DISP.update(texts={sd: texts[sd] + [t for t in extra[sd] if t not in texts[sd]] for sd in texts},
                      mods={"pack": pack, "unpack": unpack}, cache={})
@@ -525,7 +525,7 @@ def true_tests(t, side: str, annotations=()) -> list:
 
 def valuation(t, d: str) -> str:
     """Gallina valuation of the handler tests for the real type object t (direction d): the tests of the translated
-    chains (K5D) and handler guards (K5R) evaluated with the library's own predicates; only the tests that hold are listed."""
+    chains (K5D) and handler guards (K110a) evaluated with the library's own predicates; only the tests that hold are listed."""
     test_texts()
     side = "pack" if d == "ser" else "unpack"
     key = (side, repr(t))
@@ -813,7 +813,7 @@ Definition path_ok (x: path_case) : bool :=
   end.
 """
 
-# with the registry kernel: every position's site is decided by the walk of the whole translated registry (K5R + K5D)
+# with the registry kernel: every position's site is decided by the walk of the whole translated registry (K110a + K5D)
 # on the valuation (RegistryWalk.compile_r); a dataclass position is no longer told to the model, it is dispatched
 COQ_OK_REGISTRY = COQ_OK_DISPATCHED.replace("Definition path_ok", "Definition path_ok_v") + """
 Definition to_r (x: xnode) : rnode := match x with XType p dc => RType p dc | XSelf p f dc => RField p f dc | XData p f dc => RField p f dc end.
